@@ -16,7 +16,9 @@ THEOREMS = ["Mistune.firstChars_sound", "Mistune.no_rule_at_nonstop", "Mistune.l
 EXTRA_LINES = ["Intro", "a | b", "--- | ---", "1 | 2", "--|--", "| x | y |", "|---|---|", "term", ": def", ":   more", "foo\t", "foo \t ", "bar  ", "baz   ",
                "tab\there", "x\\", "é  ", "日本語", "　wide", "http://a.b/c d", "see https://x.y.", "a*b*c", "a_b_c", "1. one", "10) ten", "- x", "+ y",
                "* z", "=", "==", "---", "===", "~~~", "    code", "\tcode", "a\x0bb", "a\x0cb", "a\x1cb", "a b", "trailing ", " leading", "$x$", "[^1]", "[^1]: n",
-               "*[A]: abbr", "A", ">! s", "~sub~", "^sup^", "==m==", "^^i^^", "<b>", "&amp;", "[l](u)", "![i](u)", "`c`", "``c` d``", "word"]
+               "*[A]: abbr", "A", ">! s", "~sub~", "^sup^", "==m==", "^^i^^", "<b>", "&amp;", "[l](u)", "![i](u)", "`c`", "``c` d``", "word",
+               # autolinks and raw constructs after plain text whose first character after "<" is not a letter
+               "mail <1abc@example.com> now", "x <_me@e.com> y", "a <+tag@e.com>", "see <#h@e.com>", "t <9@a.b> u", "n <.a@b.c>", "b <!-- c --> d", "p <?php ?> q", "z </a> w", "k <!DOCTYPE x> l", "m <![CDATA[x]]> n"]
 
 
 STOPS = list("\\><![_*`~^$=") + ["http:", "https:", " \n", ".", "-", "&", ";", "#"]
@@ -89,7 +91,8 @@ def oracle(ctx, ds, n_cfg):
             if x != y:
                 import re as _re
                 keys = _re.findall(r"^ {0,3}\*\[([^\]\n]+)\]:", d, _re.M)
-                prefix_keys = "abbr" in pl and any(a != b and b.startswith(a) for a in keys for b in keys)
+                # the known finding: the LONGER key is defined before a key that is its prefix (definition order = alternation order)
+                prefix_keys = "abbr" in pl and any(a != b and b.startswith(a) and keys.index(b) < keys.index(a) for a in keys for b in keys)
                 kind = "abbr-prefix-key" if prefix_keys else "block" if (isinstance(x, str) and isinstance(y, str) and x.count("<p>") != y.count("<p>")) or "<table" in str(x) + str(y) or "<dl" in str(x) + str(y) else "inline"
                 ctx.fail("speedup-differs:%s:%s" % (kind, "hardwrap" if hw else "std"),
                          "plugins %s hard_wrap=%s: output differs with speedup for %r" % (pl, hw, d),
